@@ -69,6 +69,33 @@ pub fn exec_open(bs: Vec<u8>) -> String {
         len, ver, asn, ht, id, opl, params, caps, four, mp, ap, sw)
 }
 
+/// common::iter_protocol on the iterators of an OPEN: parameters(), capabilities() (a flat_map over the
+/// private CapabilitiesIter of every capabilities parameter), multiprotocol_ids() (`*_ok`: the plain listing
+/// of that iterator returned)
+pub(crate) fn proto_of_open<O: octseq::Octets>(p: &mut Proto, name: &str, m: &OpenMessage<O>, params_ok: bool, caps_ok: bool, mp_ok: bool) {
+    if params_ok {
+        p.it(&format!("{}parameters()", name), || m.parameters(), |x| u8::from(x.typ()).to_string(), 1000);
+    }
+    if caps_ok {
+        p.it(&format!("{}capabilities()", name), || m.capabilities(), |c| format!("{}:{}", u8::from(c.typ()), hex(c.value())), 1000);
+    }
+    if mp_ok {
+        p.it(&format!("{}multiprotocol_ids()", name), || m.multiprotocol_ids(), |f| { let (a, s): (u16, u8) = (*f).into(); format!("{}/{}", a, s) }, 1000);
+    }
+}
+
+/// ` proto=..` for an accepted OPEN whose plain reply is `r`
+fn proto_of_open_reply(bs: &[u8], r: &str) -> String {
+    let mut p = Proto::new();
+    if p.on() {
+        if let Ok(m) = OpenMessage::from_octets(bs) {
+            let ok = |k: &str| r.split(' ').find_map(|f| f.strip_prefix(k)).map(|v| v != "P").unwrap_or(false);
+            proto_of_open(&mut p, "", &m, ok("params="), ok("caps="), ok("mp="));
+        }
+    }
+    format!(" {}", p.token())
+}
+
 fn exec_notif(bs: Vec<u8>) -> String {
     let m = match NotificationMessage::from_octets(bs) {
         Ok(m) => m,
@@ -195,7 +222,7 @@ impl C03 {
     fn exec_inner(&self, line: &str) -> String {
         let w: Vec<&str> = line.split(' ').collect();
         match w.as_slice() {
-            ["open", h] => match hexarg(h) { Some(b) => exec_open(b), None => "bad-op".into() },
+            ["open", h] => match hexarg(h) { Some(b) => { let r = exec_open(b.clone()); if r.starts_with("ok ") { let t = proto_of_open_reply(&b, &r); r + &t } else { r } }, None => "bad-op".into() },
             ["notif", h] => match hexarg(h) { Some(b) => exec_notif(b), None => "bad-op".into() },
             ["ka", h] => match hexarg(h) {
                 Some(b) => match KeepaliveMessage::from_octets(b) { Ok(_) => "ok".into(), Err(_) => "err".into() },
@@ -696,6 +723,9 @@ impl Prop for C03 {
         let w: Vec<&str> = line.split(' ').collect();
         if reply == "panic" { return Err("decoding / building panicked".into()); }
         if reply == "bad-op" { return Ok(()); }
+        // the iterator-protocol verdict of an accepted OPEN (last token of an `open` reply)
+        proto_judge(reply)?;
+        let reply = reply.strip_suffix(" proto=ok").unwrap_or(reply);
         // a builder made on a target that already holds octets must produce the same message
         if let Some(rest) = line.strip_prefix("bopent ") {
             let (_, r) = rest.split_once(' ').ok_or("bad bopent")?;
